@@ -47,6 +47,11 @@ fn plan_ops(plan: &Arc<dyn ExecutionPlan>, out: &mut Vec<String>) {
     } else if name == "HashJoinExec" {
         let k = if line.contains("mode=CollectLeft") { "CollectLeft" } else if line.contains("mode=Partitioned") { "Partitioned" } else { "Auto" };
         name = format!("HashJoinExec:{k}");
+    } else if name == "NestedLoopJoinExec" || name == "SortMergeJoinExec" {
+        if let Some(i) = line.find("join_type=") {
+            let jt: String = line[i + 10..].chars().take_while(|c| c.is_alphanumeric()).collect();
+            name = format!("{name}:{jt}");
+        }
     } else if name == "SortExec" {
         if line.contains("TopK") {
             name = "SortExec:TopK".into();
